@@ -1321,7 +1321,6 @@ def pattern_div_i32(context, tree, c0, c1):
     return d
 
 
-@isa.pattern("reg", "DIVU16(reg, reg)", size=10)
 @isa.pattern("reg", "DIVU32(reg, reg)", size=10)
 def pattern_div_u32(context, tree, c0, c1):
     d = context.new_reg(RiscvRegister)
@@ -1336,12 +1335,85 @@ def pattern_rem_i32(context, tree, c0, c1):
     return d
 
 
-@isa.pattern("reg", "REMU16(reg, reg)", size=10)
 @isa.pattern("reg", "REMU32(reg, reg)", size=10)
 def pattern_rem_u32(context, tree, c0, c1):
     d = context.new_reg(RiscvRegister)
     context.emit(Remu(d, c0, c1))
     return d
+
+
+def sign_extend(context, value, bits):
+    """Sign extend the low bits of a value into a new register"""
+    d = context.new_reg(RiscvRegister)
+    context.emit(Slli(d, value, 32 - bits))
+    context.emit(Srai(d, d, 32 - bits))
+    return d
+
+
+def zero_extend(context, value, bits):
+    """Zero extend the low bits of a value into a new register"""
+    d = context.new_reg(RiscvRegister)
+    context.emit(Slli(d, value, 32 - bits))
+    context.emit(Srli(d, d, 32 - bits))
+    return d
+
+
+# The quotient and remainder depend on all bits of the operands. The high
+# bits of a register with an 8 or 16 bit value are not defined, extend first:
+@isa.pattern("reg", "DIVI8(reg, reg)", size=18)
+def pattern_div_i8(context, tree, c0, c1):
+    a = sign_extend(context, c0, 8)
+    b = sign_extend(context, c1, 8)
+    return pattern_div_i32(context, tree, a, b)
+
+
+@isa.pattern("reg", "DIVI16(reg, reg)", size=18)
+def pattern_div_i16(context, tree, c0, c1):
+    a = sign_extend(context, c0, 16)
+    b = sign_extend(context, c1, 16)
+    return pattern_div_i32(context, tree, a, b)
+
+
+@isa.pattern("reg", "DIVU8(reg, reg)", size=18)
+def pattern_div_u8(context, tree, c0, c1):
+    a = zero_extend(context, c0, 8)
+    b = zero_extend(context, c1, 8)
+    return pattern_div_u32(context, tree, a, b)
+
+
+@isa.pattern("reg", "DIVU16(reg, reg)", size=18)
+def pattern_div_u16(context, tree, c0, c1):
+    a = zero_extend(context, c0, 16)
+    b = zero_extend(context, c1, 16)
+    return pattern_div_u32(context, tree, a, b)
+
+
+@isa.pattern("reg", "REMI8(reg, reg)", size=18)
+def pattern_rem_i8(context, tree, c0, c1):
+    a = sign_extend(context, c0, 8)
+    b = sign_extend(context, c1, 8)
+    return pattern_rem_i32(context, tree, a, b)
+
+
+@isa.pattern("reg", "REMI16(reg, reg)", size=18)
+def pattern_rem_i16(context, tree, c0, c1):
+    a = sign_extend(context, c0, 16)
+    b = sign_extend(context, c1, 16)
+    return pattern_rem_i32(context, tree, a, b)
+
+
+@isa.pattern("reg", "REMU8(reg, reg)", size=18)
+def pattern_rem_u8(context, tree, c0, c1):
+    a = zero_extend(context, c0, 8)
+    b = zero_extend(context, c1, 8)
+    return pattern_rem_u32(context, tree, a, b)
+
+
+@isa.pattern("reg", "REMU16(reg, reg)", size=18)
+def pattern_rem_u16(context, tree, c0, c1):
+    a = zero_extend(context, c0, 16)
+    b = zero_extend(context, c1, 16)
+    return pattern_rem_u32(context, tree, a, b)
 
 
 @isa.pattern("reg", "XORU8(reg, reg)", size=2)
